@@ -3,6 +3,7 @@ package ax
 import (
 	"bufio"
 	"bytes"
+	"errors"
 	"io"
 	"os"
 	"strings"
@@ -23,6 +24,56 @@ var SourceKinds = []string{
 	"bufio16", "bufio64", "bufio1000", "bufio4095", "bufio4096", "bufio8192", "bufio131072",
 	"bufio16@armor", "bufio512@armor", "bufio4095@armor", "bufio65536@armor",
 	"one-byte", "half", "data-with-eof", "multi-reader", "limited-reader",
+}
+
+// OneShotKinds are sources that fail when they are read again after a bare
+// (0, io.EOF): io.Reader does not promise that the end is reported twice, and
+// a wrapper that releases its resource at the end (close-on-EOF around an
+// *os.File, a response body) cannot. They are used only with files that
+// Encrypt itself (or the reference writer) produced: for those the tree reads
+// up to the end exactly once, binary or armored. Arbitrary armor texts are a
+// different matter (a text without its final newline makes bufio deliver the
+// END line together with the EOF it has already seen, and the trailing
+// white-space check legitimately asks the source again), so C08 does not use
+// these kinds.
+var OneShotKinds = []string{"eof-once", "close-on-eof"}
+
+// SourceKindsOwnFiles = SourceKinds + OneShotKinds.
+var SourceKindsOwnFiles = append(append([]string(nil), SourceKinds...), OneShotKinds...)
+
+// ErrReadAfterEOF is what the "eof-once" sources return when they are read
+// again after they have reported the end of their data: io.Reader does not
+// promise that io.EOF is repeated, and a wrapper that releases its resource
+// at the end (close-on-EOF around an *os.File, a response body) fails instead.
+var ErrReadAfterEOF = errors.New("verif: source read again after it reported io.EOF")
+
+// (Only a bare (0, io.EOF) counts: a source that hands out its last bytes
+// together with io.EOF is legitimately asked again, because io.ReadFull and
+// bufio drop an io.EOF that comes with the bytes that were asked for.)
+type eofOnce struct {
+	r    io.Reader
+	done bool
+}
+
+func (e *eofOnce) Read(p []byte) (int, error) {
+	if e.done {
+		return 0, ErrReadAfterEOF
+	}
+	n, err := e.r.Read(p)
+	if err == io.EOF && n == 0 {
+		e.done = true
+	}
+	return n, err
+}
+
+type closeOnEOF struct{ f *os.File }
+
+func (c closeOnEOF) Read(p []byte) (int, error) {
+	n, err := c.f.Read(p)
+	if err == io.EOF {
+		c.f.Close() // later Reads: "file already closed"
+	}
+	return n, err
 }
 
 func bufioSize(kind string) int {
@@ -100,6 +151,16 @@ func OpenSource(file []byte, kind string) (r io.Reader, cleanup func()) {
 	case kind == "multi-reader":
 		a, b := len(file)/3, 2*len(file)/3
 		return io.MultiReader(bytes.NewReader(file[:a]), bytes.NewReader(nil), bytes.NewReader(file[a:b]), strings.NewReader(string(file[b:]))), cleanup
+	case kind == "eof-once":
+		return &eofOnce{r: bytes.NewReader(file)}, cleanup
+	case kind == "close-on-eof":
+		f, err := os.CreateTemp(os.Getenv("VERIF_SCRATCH"), "axsrc.")
+		if err != nil {
+			return &eofOnce{r: bytes.NewReader(file)}, cleanup
+		}
+		f.Write(file)
+		f.Seek(0, io.SeekStart)
+		return closeOnEOF{f}, func() { f.Close(); os.Remove(f.Name()) }
 	case kind == "limited-reader":
 		return io.LimitReader(bytes.NewReader(append(append([]byte(nil), file...), "junk beyond the limit"...)), int64(len(file))), cleanup
 	}
